@@ -578,6 +578,7 @@ func writeEvidence(root string, spec *CheckSpec, tier string, seed int, runs []*
 	totalTrans, totalSD := 0, 0
 	var solverT float64
 	exhaustive := true
+	var boundParts []string
 	for _, ur := range runs {
 		for _, r := range ur.results {
 			entries = append(entries, entryEv{Entry: r.Cfg.Func, Package: ur.unit.Package, Paths: r.Paths, Nontrivial: r.Nontrivial, SolverDec: r.SolverDecided, Ends: r.Ends,
@@ -586,6 +587,18 @@ func writeEvidence(root string, spec *CheckSpec, tier string, seed int, runs []*
 				Fallback:  r.Stats.Fallback, CrossChecked: r.Stats.CrossChecks, CrossDiffs: r.Stats.CrossDiffs,
 				SolverTimeS: r.Stats.SolverTime.Seconds(), MaxQueryS: r.Stats.MaxQuery.Seconds(), WallS: r.Wall.Seconds(),
 				Unwind: r.Cfg.Unwind, UnwindSeen: r.MaxUnwind, MapOrder: r.Cfg.MapOrder, Params: r.Cfg.Params, Exhaustive: r.Exhaustive, Bounds: r.Cfg.Bounds})
+			{
+				var ks []string
+				for k := range r.Cfg.Params {
+					ks = append(ks, k)
+				}
+				sort.Strings(ks)
+				var ps []string
+				for _, k := range ks {
+					ps = append(ps, fmt.Sprintf("%s=%v", k, r.Cfg.Params[k]))
+				}
+				boundParts = append(boundParts, fmt.Sprintf("%s: %s; loops with a symbolic guard unwound <= %d times (max seen %d); map iteration orders for maps <= %d entries", r.Cfg.Func, strings.Join(ps, " "), r.Cfg.Unwind, r.MaxUnwind, r.Cfg.MapOrder))
+			}
 			totalQ += r.Stats.Queries
 			totalNT += r.Nontrivial
 			totalPaths += r.Paths
@@ -661,7 +674,7 @@ func writeEvidence(root string, spec *CheckSpec, tier string, seed int, runs []*
 			"functions_encoded_from_repo":     repoFuncs,
 			"dependency_functions_executed_from_ssa": len(depFuncs),
 			"stubs_and_models_used":           stubList,
-			"bounds":                          spec.BoundsText[tier],
+			"bounds":                          strings.TrimSpace(spec.BoundsText[tier] + " Per entry (harness parameters of this run): " + strings.Join(boundParts, " | ")),
 			"solver_time_s":                   solverT,
 			"solvers":                         "z3 4.8.12 (incremental, primary); fallback portfolio on unknown: cvc5 1.0 --solve-bv-as-int=sum, z3 5.1.0, cvc5 --strings-exp; thorough tier re-discharges every assertion query on the portfolio",
 			"counterexamples_replayed_natively": replayed,
